@@ -19,7 +19,13 @@ import (
 type term struct {
 	v     ssa.Value
 	isLen bool
+	// difference terms: when w != nil the term stands for (v) - (w), each side
+	// an integer value or a length; its fact bounds the difference
+	w    ssa.Value
+	wLen bool
 }
+
+func diffTerm(a, b term) term { return term{v: a.v, isLen: a.isLen, w: b.v, wLen: b.isLen} }
 
 type fact struct {
 	lo, hi int64           // inclusive bounds (math.MinInt64 / MaxInt64 = unbounded)
@@ -30,7 +36,7 @@ type fact struct {
 
 func topFact(t term) fact {
 	f := fact{lo: math.MinInt64, hi: math.MaxInt64}
-	if t.isLen {
+	if t.isLen && t.w == nil {
 		f.lo = 0
 	}
 	return f
@@ -150,10 +156,17 @@ func factEqual(a, b fact) bool {
 }
 
 type Facts struct {
-	fn    *ssa.Function
-	in    map[*ssa.BasicBlock]state
-	reach map[*ssa.BasicBlock]bool
-	enums map[*types.Named][]string // closed enumerations: type -> constant values (ExactString)
+	fn     *ssa.Function
+	in     map[*ssa.BasicBlock]state
+	reach  map[*ssa.BasicBlock]bool
+	enums  map[*types.Named][]string // closed enumerations: type -> constant values (ExactString)
+	depth  int
+	moves map[widenKey]int
+}
+
+type widenKey struct {
+	b *ssa.BasicBlock
+	t term
 }
 
 // termOf normalises an integer-valued SSA value to (term, offset): value =
@@ -169,7 +182,7 @@ func termOf(v ssa.Value) (t term, off int64, isConst bool, ok bool) {
 		return term{}, 0, false, false
 	}
 	if call, isLen := isBuiltinCall(v, "len"); isLen {
-		return term{strip(call.Call.Args[0]), true}, 0, false, true
+		return term{v: strip(call.Call.Args[0]), isLen: true}, 0, false, true
 	}
 	if bo, isB := v.(*ssa.BinOp); isB && (bo.Op == token.ADD || bo.Op == token.SUB) {
 		if c, ok := constInt(bo.Y); ok {
@@ -189,7 +202,7 @@ func termOf(v ssa.Value) (t term, off int64, isConst bool, ok bool) {
 		}
 	}
 	if b, isBasic := v.Type().Underlying().(*types.Basic); isBasic && b.Info()&types.IsInteger != 0 {
-		return term{v, false}, 0, false, true
+		return term{v: v, isLen: false}, 0, false, true
 	}
 	return term{}, 0, false, false
 }
@@ -320,6 +333,32 @@ func (fs *Facts) applyCond(s state, cond ssa.Value, truth bool) (state, bool) {
 		out[t] = f
 		return out, true
 	}
+	// comparison of two non-constant integer terms: bound their difference
+	if okx && oky && !cx && !cy && tx != ty {
+		d := diffTerm(tx, ty)
+		c := oy - ox
+		cur := s.get(d)
+		// what is known the other way round, mirrored
+		if r, ok := s[diffTerm(ty, tx)]; ok {
+			if r.hi != math.MaxInt64 && -r.hi > cur.lo {
+				cur.lo = -r.hi
+			}
+			if r.lo != math.MinInt64 && -r.lo < cur.hi {
+				cur.hi = -r.lo
+			}
+		}
+		f := refineInt(cur, op, c)
+		if f.lo > f.hi {
+			return s, false
+		}
+		out := state{}
+		for k, v := range s {
+			out[k] = v
+		}
+		f.excl = nil
+		out[d] = f
+		return out, true
+	}
 	// equality with a non-integer constant (closed enumerations, strings)
 	if op == token.EQL || op == token.NEQ {
 		var v ssa.Value
@@ -331,7 +370,7 @@ func (fs *Facts) applyCond(s state, cond ssa.Value, truth bool) (state, bool) {
 		}
 		if k != nil && k.Value != nil && k.Value.Kind() == constant.String {
 			if _, isConst := v.(*ssa.Const); !isConst {
-				t := term{v, false}
+				t := term{v: v, isLen: false}
 				f := s.get(t).clone()
 				ks := k.Value.ExactString()
 				if op == token.EQL {
@@ -379,12 +418,21 @@ func (fs *Facts) applyCond(s state, cond ssa.Value, truth bool) (state, bool) {
 
 // NewFacts runs the dataflow for fn.
 func NewFacts(fn *ssa.Function, enums map[*types.Named][]string) *Facts {
-	fs := &Facts{fn: fn, in: map[*ssa.BasicBlock]state{}, reach: map[*ssa.BasicBlock]bool{}, enums: enums}
+	return NewFactsEntry(fn, enums, nil)
+}
+
+// NewFactsEntry: as NewFacts, with facts about the parameters holding on entry
+// (the meet over every call site, see paramEntryFacts).
+func NewFactsEntry(fn *ssa.Function, enums map[*types.Named][]string, entryState state) *Facts {
+	fs := &Facts{fn: fn, in: map[*ssa.BasicBlock]state{}, reach: map[*ssa.BasicBlock]bool{}, enums: enums, moves: map[widenKey]int{}}
 	if len(fn.Blocks) == 0 {
 		return fs
 	}
 	entry := fn.Blocks[0]
 	fs.in[entry] = state{}
+	for t, f := range entryState {
+		fs.in[entry][t] = f
+	}
 	fs.reach[entry] = true
 	work := []*ssa.BasicBlock{entry}
 	inWork := map[*ssa.BasicBlock]bool{entry: true}
@@ -412,6 +460,34 @@ func NewFacts(fn *ssa.Function, enums map[*types.Named][]string) *Facts {
 						m := meetFact(t, f, g)
 						if !factEqual(m, topFact(t)) {
 							merged[t] = m
+						}
+					}
+				}
+				// widening: a bound of one term that keeps moving at one block
+				// (an induction variable) is given up after many moves
+				for t, f := range merged {
+					o := old[t]
+					wk := widenKey{succ, t}
+					if f.lo < o.lo {
+						fs.moves[wk]++
+					}
+					if f.hi > o.hi {
+						fs.moves[wk]++
+					}
+					if fs.moves[wk] > 40 {
+						if f.lo < o.lo {
+							f.lo = math.MinInt64
+							if t.isLen && t.w == nil {
+								f.lo = 0
+							}
+						}
+						if f.hi > o.hi {
+							f.hi = math.MaxInt64
+						}
+						if factEqual(f, topFact(t)) {
+							delete(merged, t)
+						} else {
+							merged[t] = f
 						}
 					}
 				}
@@ -484,11 +560,11 @@ func (fs *Facts) edgeState(b *ssa.BasicBlock, idx int) (state, bool) {
 		}
 		switch phi.Type().Underlying().(type) {
 		case *types.Slice:
-			set(term{phi, true}, s.get(term{strip(inc), true}))
+			set(term{v: phi, isLen: true}, s.get(term{v: strip(inc), isLen: true}))
 		case *types.Basic:
 			if t, off, isC, ok := termOf(inc); ok {
 				if isC {
-					set(term{phi, false}, fact{lo: off, hi: off})
+					set(term{v: phi, isLen: false}, fact{lo: off, hi: off})
 				} else {
 					f := s.get(t).clone()
 					f.lo, f.hi = sat(f.lo, off), sat(f.hi, off)
@@ -499,12 +575,12 @@ func (fs *Facts) edgeState(b *ssa.BasicBlock, idx int) (state, bool) {
 						}
 						f.excl = ex
 					}
-					set(term{phi, false}, f)
+					set(term{v: phi, isLen: false}, f)
 				}
 			} else if k, ok := strip(inc).(*ssa.Const); ok && k.Value != nil && k.Value.Kind() == constant.String {
-				set(term{phi, false}, fact{lo: math.MinInt64, hi: math.MaxInt64, eq: k.Value.ExactString()})
+				set(term{v: phi, isLen: false}, fact{lo: math.MinInt64, hi: math.MaxInt64, eq: k.Value.ExactString()})
 			} else {
-				set(term{phi, false}, s.get(term{strip(inc), false}))
+				set(term{v: phi, isLen: false}, s.get(term{v: strip(inc), isLen: false}))
 			}
 		}
 	}
@@ -529,6 +605,18 @@ func (fs *Facts) At(b *ssa.BasicBlock) (state, bool) {
 	return fs.in[b], true
 }
 
+// diffLE: the largest known value of (a) - (b) under s (MaxInt64 = unknown).
+func (s state) diffHi(a, b term) int64 {
+	hi := int64(math.MaxInt64)
+	if f, ok := s[diffTerm(a, b)]; ok {
+		hi = f.hi
+	}
+	if r, ok := s[diffTerm(b, a)]; ok && r.lo != math.MinInt64 && -r.lo < hi {
+		hi = -r.lo
+	}
+	return hi
+}
+
 // bounds of an integer-valued SSA value at block b.
 func (fs *Facts) bounds(v ssa.Value, b *ssa.BasicBlock) (lo, hi int64, ok bool) {
 	s, reach := fs.At(b)
@@ -543,7 +631,40 @@ func (fs *Facts) bounds(v ssa.Value, b *ssa.BasicBlock) (lo, hi int64, ok bool) 
 		return off, off, true
 	}
 	f := s.get(t)
-	return sat(f.minVal(), off), sat(f.maxVal(), off), true
+	lo, hi = sat(f.minVal(), off), sat(f.maxVal(), off)
+	// a sum or difference of two non-constant values: interval arithmetic on
+	// the operands sharpens what is known about the term itself
+	if bo, isB := t.v.(*ssa.BinOp); isB && !t.isLen && (bo.Op == token.ADD || bo.Op == token.SUB) && fs.depth < 4 {
+		fs.depth++
+		xlo, xhi, okx := fs.bounds(bo.X, b)
+		ylo, yhi, oky := fs.bounds(bo.Y, b)
+		fs.depth--
+		if okx && oky {
+			var slo, shi int64 = math.MinInt64, math.MaxInt64
+			if bo.Op == token.ADD {
+				if xlo != math.MinInt64 && ylo != math.MinInt64 {
+					slo = sat(xlo, ylo)
+				}
+				if xhi != math.MaxInt64 && yhi != math.MaxInt64 {
+					shi = sat(xhi, yhi)
+				}
+			} else {
+				if xlo != math.MinInt64 && yhi != math.MaxInt64 {
+					slo = sat(xlo, -yhi)
+				}
+				if xhi != math.MaxInt64 && ylo != math.MinInt64 {
+					shi = sat(xhi, -ylo)
+				}
+			}
+			if slo != math.MinInt64 && sat(slo, off) > lo {
+				lo = sat(slo, off)
+			}
+			if shi != math.MaxInt64 && sat(shi, off) < hi {
+				hi = sat(shi, off)
+			}
+		}
+	}
+	return lo, hi, true
 }
 
 // closedEnums: unexported named string types of pkg whose values can only be
@@ -625,5 +746,159 @@ func closedEnums(w *World, pkg *ssa.Package) map[*types.Named][]string {
 			out[n] = vals
 		}
 	}
+	return out
+}
+
+func isStringType(t types.Type) bool {
+	b, ok := t.Underlying().(*types.Basic)
+	return ok && b.Info()&types.IsString != 0
+}
+
+// paramEntryFacts: interval facts about the integer parameters of an
+// unexported function that hold on entry because they hold at every call:
+// the function must only be called statically (never stored, passed or
+// invoked through an interface), and every caller's guard facts at the call
+// site must bound the argument. Callers' own entry facts are used up to a
+// small depth (recursion is cut).
+type entryFacts struct {
+	w     *World
+	enums map[*types.Named][]string
+	memo  map[*ssa.Function]state
+	busy  map[*ssa.Function]bool
+	facts map[*ssa.Function]*Facts
+	used  map[*ssa.Function]bool // address-taken or otherwise used as a value
+}
+
+func newEntryFacts(w *World, enums map[*types.Named][]string) *entryFacts {
+	ef := &entryFacts{w: w, enums: enums, memo: map[*ssa.Function]state{}, busy: map[*ssa.Function]bool{}, facts: map[*ssa.Function]*Facts{}, used: map[*ssa.Function]bool{}}
+	for fn := range w.AllFunctions() {
+		for _, b := range fn.Blocks {
+			for _, in := range b.Instrs {
+				var calleeSlot *ssa.Value
+				if c, ok := in.(ssa.CallInstruction); ok {
+					calleeSlot = &c.Common().Value
+				}
+				for _, op := range in.Operands(nil) {
+					if op == nil || *op == nil || op == calleeSlot {
+						continue
+					}
+					if f, ok := (*op).(*ssa.Function); ok {
+						ef.used[f] = true
+					}
+				}
+			}
+		}
+	}
+	return ef
+}
+
+func (ef *entryFacts) factsOf(fn *ssa.Function) *Facts {
+	if f, ok := ef.facts[fn]; ok {
+		return f
+	}
+	f := NewFactsEntry(fn, ef.enums, ef.entry(fn))
+	ef.facts[fn] = f
+	return f
+}
+
+func (ef *entryFacts) entry(fn *ssa.Function) state {
+	if s, ok := ef.memo[fn]; ok {
+		return s
+	}
+	if ef.busy[fn] {
+		return nil
+	}
+	ef.busy[fn] = true
+	defer func() { ef.busy[fn] = false }()
+	out := state{}
+	ef.memo[fn] = nil
+	obj, _ := fn.Object().(*types.Func)
+	if obj == nil || obj.Exported() || fn.Synthetic != "" || ef.used[fn] || len(fn.Params) == 0 {
+		return nil
+	}
+	node := ef.w.CG().Nodes[fn]
+	if node == nil || len(node.In) == 0 {
+		return nil
+	}
+	first := true
+	for _, e := range node.In {
+		site := e.Site
+		if site == nil || site.Common().IsInvoke() || site.Common().StaticCallee() != fn {
+			return nil
+		}
+		if _, isCall := site.(*ssa.Call); !isCall {
+			return nil // go / defer: run later, not under the site's facts
+		}
+		caller := e.Caller.Func
+		if caller.Synthetic != "" {
+			// pointer-receiver / bound-method wrappers: dead unless something calls them
+			if cn := ef.w.CG().Nodes[caller]; (cn == nil || len(cn.In) == 0) && !ef.used[caller] {
+				continue
+			}
+			return nil
+		}
+		if caller == fn {
+			continue // self recursion: arguments are checked like any other site below
+		}
+		cf := ef.factsOf(caller)
+		args := site.Common().Args
+		if len(args) != len(fn.Params) {
+			return nil
+		}
+		cur := state{}
+		for i, p := range fn.Params {
+			b, ok := p.Type().Underlying().(*types.Basic)
+			if !ok || b.Info()&types.IsInteger == 0 {
+				continue
+			}
+			lo, hi, ok := cf.bounds(args[i], site.Block())
+			if !ok {
+				// unreachable call site constrains nothing
+				lo, hi = math.MaxInt64, math.MinInt64
+			}
+			cur[term{v: p}] = fact{lo: lo, hi: hi}
+		}
+		if first {
+			out, first = cur, false
+			continue
+		}
+		for t, f := range out {
+			g := cur[t]
+			if g.lo < f.lo {
+				f.lo = g.lo
+			}
+			if g.hi > f.hi {
+				f.hi = g.hi
+			}
+			out[t] = f
+		}
+	}
+	// self-recursive sites: the bounds must be inductive
+	for _, e := range node.In {
+		if e.Caller.Func != fn {
+			continue
+		}
+		tmp := NewFactsEntry(fn, ef.enums, out)
+		for i, p := range fn.Params {
+			t := term{v: p}
+			f, ok := out[t]
+			if !ok {
+				continue
+			}
+			lo, hi, ok := tmp.bounds(e.Site.Common().Args[i], e.Site.Block())
+			if ok && (lo < f.lo || hi > f.hi) {
+				delete(out, t)
+			}
+		}
+	}
+	for t, f := range out {
+		if f.lo > f.hi || (f.lo == math.MinInt64 && f.hi == math.MaxInt64) {
+			delete(out, t)
+		}
+	}
+	if len(out) == 0 {
+		out = nil
+	}
+	ef.memo[fn] = out
 	return out
 }
